@@ -24,7 +24,7 @@ type C12MW struct {
 }
 
 type C12Step struct {
-	Kind  string `json:"kind"` // req | req_mutating_handler | req_then_scribble_request | dup | scribble_input | scribble_config_result | keep_config_result | scribble_kept | flip_scalars | reconf_again
+	Kind  string `json:"kind"` // req | req_mutating_handler | req_then_scribble_request | dup | scribble_input | scribble_config_result | keep_config_result | scribble_kept | flip_scalars | reconf_again | reconf_other
 	MW    int    `json:"mw"`
 	Req   int    `json:"req,omitempty"`   // index into the middleware's probe suite (mod len)
 	Alien bool   `json:"alien,omitempty"` // take the request from ANOTHER middleware's suite
@@ -68,7 +68,7 @@ func (c12) FaultKinds() []string {
 	return []string{"F4_scribble_input_config", "F4_scribble_config_result", "F4_scribble_kept_config_result", "F4_flip_scalars", "F4_handler_scribbles_request_headers", "F4_handler_scribbles_response_headers", "F4_handler_mutates_header_maps", "F4_caller_scribbles_request_after_return", "F6_duplicate_request"}
 }
 func (c12) Probes() []string {
-	return []string{"shared_config_value", "handler_saw_acao_alias", "alien_request", "three_middlewares", "suite_compared", "reconfigure_again_same_config"}
+	return []string{"shared_config_value", "handler_saw_acao_alias", "alien_request", "three_middlewares", "suite_compared", "reconfigure_again_same_config", "reconfigure_to_other_config_vs_fresh"}
 }
 
 func (c12) Gen(r *R, tier string) any {
@@ -90,7 +90,7 @@ func (c12) Gen(r *R, tier string) any {
 	if tier == "thorough" && r.P(0.3) {
 		steps = r.Range(40, 90)
 	}
-	kinds := []string{"req", "req", "req_mutating_handler", "req_mutating_handler", "req_then_scribble_request", "dup", "scribble_input", "scribble_config_result", "keep_config_result", "scribble_kept", "flip_scalars", "reconf_again"}
+	kinds := []string{"req", "req", "req_mutating_handler", "req_mutating_handler", "req_then_scribble_request", "dup", "scribble_input", "scribble_config_result", "keep_config_result", "scribble_kept", "flip_scalars", "reconf_again", "reconf_other"}
 	for i := 0; i < steps; i++ {
 		p.Steps = append(p.Steps, C12Step{Kind: pick(r, kinds), MW: r.Intn(k), Req: r.Intn(1 << 16), Alien: r.P(0.2), Val: r.Intn(64)})
 	}
@@ -183,6 +183,7 @@ type c12mw struct {
 	base    []Resp
 	baseCfg *cors.Config
 	kept    []*cors.Config
+	cfgIdx  int // configuration currently installed (plan-level knowledge: selects suite and baseline)
 }
 
 func permOf(seed uint64, salt uint64, n int) []int {
@@ -226,6 +227,7 @@ func (c12) Exec(plan any, c *Ctx) *Violation {
 		x.m.SetDebug(spec.Debug)
 		x.srv = x.m.Wrap(mutHandler{&x.mutate, c, &x.invoked})
 		x.suite = probeSuite(p.Cfgs[spec.Cfg])
+		x.cfgIdx = spec.Cfg
 		mws[i] = x
 	}
 	if len(mws) == 3 {
@@ -245,7 +247,7 @@ func (c12) Exec(plan any, c *Ctx) *Violation {
 			for _, j := range order {
 				got := serveWith(x.srv, x.suite[j], nil, &x.invoked)
 				if got != x.base[j] {
-					return &Violation{Class: "behaviour-changed", Key: stepKind(step), Detail: fmt.Sprintf("after %s: middleware %d (cfg %s, debug=%v) answers %s with %s; before any fault it answered %s", step, i, p.Cfgs[p.MWs[i].Cfg%len(p.Cfgs)], p.MWs[i].Debug, x.suite[j], got, x.base[j])}
+					return &Violation{Class: "behaviour-changed", Key: stepKind(step), Detail: fmt.Sprintf("after %s: middleware %d (cfg %s, debug=%v) answers %s with %s; its reference (before any fault / a fresh middleware of that configuration) answered %s", step, i, p.Cfgs[x.cfgIdx%len(p.Cfgs)], p.MWs[i].Debug, x.suite[j], got, x.base[j])}
 				}
 			}
 			c.hit("suite_compared")
@@ -257,6 +259,7 @@ func (c12) Exec(plan any, c *Ctx) *Violation {
 	}
 	var last *Req
 	lastMW := 0
+	abandon := false
 	for si, st := range p.Steps {
 		x := mws[st.MW%len(mws)]
 		step := fmt.Sprintf("#%d %s mw=%d", si, st.Kind, st.MW%len(mws))
@@ -301,13 +304,38 @@ func (c12) Exec(plan any, c *Ctx) *Violation {
 					c.Nontrivial = true
 				}
 				step += " " + q.String()
+			case "reconf_other":
+				// Reconfigure to ANOTHER configuration of the plan: from now on this
+				// middleware, with everything it has served and suffered so far, must be
+				// indistinguishable from a FRESH middleware of that configuration
+				// (nothing remembered across a reconfiguration)
+				j := st.Req % len(p.Cfgs)
+				cc := p.Cfgs[j].Config()
+				fresh, ferr := cors.NewMiddleware(p.Cfgs[j].Config())
+				if ferr != nil {
+					abandon = true
+					return
+				}
+				if err := x.m.Reconfigure(&cc); err != nil {
+					panic("a configuration NewMiddleware accepts was rejected by Reconfigure: " + err.Error())
+				}
+				dbg := p.MWs[st.MW%len(mws)].Debug
+				x.m.SetDebug(dbg)
+				fresh.SetDebug(dbg)
+				x.passed, x.cfgIdx = &cc, j
+				x.suite = probeSuite(p.Cfgs[j])
+				fi := 0
+				fsrv := fresh.Wrap(constHandler{&fi})
+				x.base = make([]Resp, len(x.suite))
+				for k, q := range x.suite {
+					x.base[k] = serveWith(fsrv, q, nil, &fi)
+				}
+				x.baseCfg = fresh.Config()
+				c.hit("reconfigure_to_other_config_vs_fresh")
 			case "reconf_again":
 				// Reconfigure with a FRESH copy of the same configuration (the memory passed
 				// earlier may have been scribbled over meanwhile): behaviour must stay put
-				cc := p.Cfgs[p.MWs[st.MW%len(mws)].Cfg%len(p.Cfgs)].Config()
-				if sw := p.MWs[st.MW%len(mws)].ShareWith; sw > 0 && sw-1 < st.MW%len(mws) {
-					cc = p.Cfgs[p.MWs[sw-1].Cfg%len(p.Cfgs)].Config()
-				}
+				cc := p.Cfgs[x.cfgIdx%len(p.Cfgs)].Config()
 				if err := x.m.Reconfigure(&cc); err != nil {
 					panic("harness: valid configuration rejected on reconf_again: " + err.Error())
 				}
@@ -351,6 +379,10 @@ func (c12) Exec(plan any, c *Ctx) *Violation {
 		})
 		if pan != "" {
 			return &Violation{Class: "panic", Key: st.Kind, Detail: step + ": " + pan}
+		}
+		if abandon {
+			c.hit("generator_rejected")
+			return nil
 		}
 		c.logf("%s", step)
 		if v := check(step, si); v != nil {
